@@ -6,6 +6,7 @@ from vk.pyvc.run import index
 
 MPS, MP, MPO, MPDM, TREE, LIB, TEVO = ("renormalizer/mps/mps.py", "renormalizer/mps/mp.py", "renormalizer/mps/mpo.py", "renormalizer/mps/mpdm.py",
                                        "renormalizer/tn/tree.py", "renormalizer/mps/lib.py", "renormalizer/tn/time_evolution.py")
+TPROP = "renormalizer/mps/thermalprop.py"
 FOLD = "R3 prefactor folding: tensors absorb coeff and coeff is reset to 1 in the same call, the represented vector (tensors x coeff) is unchanged (checked bounded: walker frame clause)"
 INPL = "R3 only on the inplace=True path (new = self if inplace else copy): the documented in-place mode; inplace=False is audited by the bounded walkers"
 OFS = "R3 documented exemption (property text): with on-the-fly swapping the Hamiltonian is re-ordered in place; equality up to the permutation is C17"
@@ -37,6 +38,14 @@ CLAUSES = {
     (MPDM, "MpDm.apply"): {}, (MPDM, "MpDm.evolve_exact"): {}, (MPDM, "MpDm.from_mps"): {}, (MPDM, "MpDm.conj_trans"): {},
     # module-level helpers behind Mps.expand_bond_dimension / TTNS.expand_bond_dimension: `lastone = mps` aliases the input until the first product replaces it
     (MPS, "expand_bond_dimension"): {}, (MPS, "expand_bond_dimension_general"): {},
+    # read-only entry points that had no clause (round 7 audit of every public method of the state / operator classes): measuring, checking, saving and
+    # converting leave their arguments alone
+    (MPS, "Mps.calc_2site_mutual_entropy"): {}, (MPS, "Mps.dump"): {}, (MPS, "BraKetPair.calc_ft"): {}, (MP, "MatrixProduct.dot_ob"): {},
+    (MP, "MatrixProduct.check_left_canonical"): {}, (MP, "MatrixProduct.check_right_canonical"): {}, (MPO, "Mpo.is_hermitian"): {},
+    (TREE, "TTNS.calc_1site_entropy"): {}, (TREE, "TTNS.calc_1dof_entropy"): {}, (TREE, "TTNS.calc_2site_entropy"): {}, (TREE, "TTNS.calc_2dof_entropy"): {},
+    (TREE, "TTNS.calc_2dof_mutual_info"): {}, (TREE, "TTNS.expectation1"): {}, (TREE, "TTNBase.dump"): {}, (TREE, "TTNS.dump"): {}, (TREE, "from_mps"): {},
+    (TREE, "TTNS.check_canonical"): {}, (TREE, "TTNS.is_canonical"): {}, (TREE, "TTNS.print_vn_entropy"): {},
+    (TPROP, "ThermalProp.evolve_exact"): {}, (TPROP, "ThermalProp.evolve_prop"): {}, (TPROP, "ThermalProp.process_mps"): {}, (TPROP, "load_thermal_state"): {},
     (LIB, "compressed_sum"): {}, (LIB, "_sum"): {("preserving-call", "mps_list", "canonicalise"): "R1"},
     (TREE, "TTNS.evolve"): {}, (TREE, "TTNS.add"): {}, (TREE, "TTNS.scale"): {("write", "self", "root.tensor"): INPL, ("inplace-call", "self", "to_complex"): INPL, ("returns-alias", "self", ""): INPL},
     (TREE, "TTNS.copy"): {}, (TREE, "TTNS.metacopy"): {},
